@@ -90,6 +90,60 @@ class Executor(Engine):
             return None
         return None
 
+    def runtime_const(self, name: str):
+        """Ground truth for module-level constants the AST evaluator cannot fold (e.g. dicts completed by .update()):
+        the value the real module has after import."""
+        import importlib
+
+        mod = self.cur_module
+        for _ in range(5):
+            try:
+                m = importlib.import_module(mod)
+            except Exception:
+                return None
+            if hasattr(m, name):
+                return getattr(m, name)
+            imp = self.module_imports(mod)
+            if name in imp:
+                mod, name = imp[name]
+                continue
+            return None
+        return None
+
+    def const_dict_lookup(self, name: str, k: SV, st: St):
+        """(key-present condition, value) for a module-level constant dict of literals; None if `name` is not one."""
+        rv = self.runtime_const(name)
+        if not (isinstance(rv, dict) and rv and all(self.lit(a) is not None and self.lit(b) is not None for a, b in rv.items())):
+            return None
+        self.assumptions_used.add("module-level constant collections are read from the imported /repo module (their run-time value)")
+        items = [(self.lit(a), self.lit(b)) for a, b in rv.items()]
+        ok = z3.Or([self.eq(k, a, st) for a, _ in items])
+        term, ty = items[-1][1].term, items[-1][1].ty
+        for a, b in reversed(items[:-1]):
+            term = z3.If(self.eq(k, a, st), b.term, term)
+            ty = T.join(ty, b.ty)
+        return ok, SV(term, ty)
+
+    def const_members(self, name: str):
+        rv = self.runtime_const(name)
+        if isinstance(rv, (list, tuple, set, frozenset, dict)):
+            coll = [self.lit(x) for x in (sorted(rv, key=repr) if isinstance(rv, (set, frozenset)) else list(rv))]
+            if all(c is not None for c in coll):
+                self.assumptions_used.add("module-level constant collections are read from the imported /repo module (their run-time value)")
+                return coll
+        return self.const_collection(name)
+
+    def lit(self, v) -> SV | None:
+        if isinstance(v, bool):
+            return SV(mk_bool(v), T.BOOL)
+        if isinstance(v, int):
+            return SV(mk_int(v), T.INT)
+        if isinstance(v, str):
+            return SV(mk_str(v), T.STR)
+        if v is None:
+            return NONE_SV
+        return None
+
     def _coll(self, node, mod) -> list[SV] | None:
         if isinstance(node, (ast.List, ast.Tuple, ast.Set)):
             out = []
@@ -382,6 +436,21 @@ class Executor(Engine):
 
     def ev_subscript(self, n: ast.Subscript, st: St):
         out = []
+        if isinstance(n.value, ast.Name) and n.value.id not in st.loc:
+            rv = self.runtime_const(n.value.id)
+            if isinstance(rv, dict) and all(self.lit(k) is not None and self.lit(v) is not None for k, v in rv.items()):
+                self.assumptions_used.add("module-level constant collections are read from the imported /repo module (their run-time value)")
+                for s1, k in self.ev(n.slice, st):
+                    items = [(self.lit(a), self.lit(b)) for a, b in rv.items()]
+                    ok = z3.Or([self.eq(k, a, s1) for a, _ in items]) if items else z3.BoolVal(False)
+                    s1 = self.implicit_raise(s1.copy(), ok, "KeyError", f"L{n.lineno}.constkey", f"key is in {n.value.id} (else KeyError)", n.lineno)
+                    term = items[-1][1].term
+                    ty = items[-1][1].ty
+                    for a, b in reversed(items[:-1]):
+                        term = z3.If(self.eq(k, a, s1), b.term, term)
+                        ty = T.join(ty, b.ty)
+                    out.append((s1, SV(term, ty)))
+                return out
         for s1, c in self.ev(n.value, st):
             ct = T.strip_opt(c.ty)
             if c.ty.k == "opt":
@@ -393,7 +462,7 @@ class Executor(Engine):
                 s2 = s2.copy()
                 if ct.k == "dict":
                     s2 = self.implicit_raise(s2, self.dict_has(s2, c, k.term), "KeyError", f"L{n.lineno}.key", f"key `{ast.unparse(n.slice)}` is in `{ast.unparse(n.value)}` (else KeyError)", n.lineno)
-                    out.append((s2, self.read_typed(s2, self.dict_val(s2, c, k.term), ct.a[1])))
+                    out.append((s2, self.dict_read(s2, c, k.term, ct.a[1])))
                 elif ct.k in ("list", "tuple", "vtuple", "any"):
                     if ct.k == "any":
                         self.assumptions_used.add("subscript on an untyped value is read as a sequence index")
@@ -410,7 +479,7 @@ class Executor(Engine):
                         ok = z3.And(idx >= -ln, idx < ln)
                         real = z3.If(idx < 0, ln + idx, idx)
                     s2 = self.implicit_raise(s2, ok, "IndexError", f"L{n.lineno}.index", f"index `{ast.unparse(n.slice)}` is within `{ast.unparse(n.value)}` (else IndexError)", n.lineno)
-                    out.append((s2, self.read_typed(s2, self.list_get(s2, c, real), self.elem_type(ct, cidx))))
+                    out.append((s2, self.list_read(s2, c, real, self.elem_type(ct, cidx))))
                 else:
                     raise Unsupported(f"subscript on {c.ty}")
         return out
@@ -517,10 +586,20 @@ class Executor(Engine):
         if isinstance(op, (ast.In, ast.NotIn)):
             for s1, x in self.ev(n.left, st):
                 # containers: dict / list / constant collection / .keys()
-                if isinstance(rn, ast.Name) and rn.id not in s1.loc:
-                    coll = self.const_collection(rn.id)
+                rn_name = rn.id if isinstance(rn, ast.Name) else (rn.func.value.id if isinstance(rn, ast.Call) and isinstance(rn.func, ast.Attribute) and rn.func.attr == "keys" and isinstance(rn.func.value, ast.Name) else None)
+                if rn_name is not None and rn_name not in s1.loc:
+                    rv = self.runtime_const(rn_name)
+                    coll = None
+                    if isinstance(rv, (list, tuple, set, frozenset, dict)):
+                        coll = [self.lit(x) for x in (sorted(rv, key=repr) if isinstance(rv, (set, frozenset)) else list(rv))]
+                        if any(c is None for c in coll):
+                            coll = None
+                        else:
+                            self.assumptions_used.add("module-level constant collections are read from the imported /repo module (their run-time value)")
                     if coll is None:
-                        raise Unsupported("`in` on " + rn.id)
+                        coll = self.const_collection(rn_name)
+                    if coll is None:
+                        raise Unsupported("`in` on " + rn_name)
                     b = z3.Or([self.eq(x, e, s1) for e in coll]) if coll else z3.BoolVal(False)
                     out.append((s1, SV(mk_bool(z3.Not(b) if isinstance(op, ast.NotIn) else b), T.BOOL)))
                     continue
